@@ -776,7 +776,7 @@ func TestC16Transport(t *testing.T) {
 		rep.Sample(4, "foreign cancel first seen after: "+a2.ForeignAt)
 	}
 	if a2.OK == 0 || a2.Errs == 0 || a3.OK == 0 || ac.Working == 0 {
-		core.HarnessError("vacuous transport run: ok=%d errs=%d ok3=%d working=%d", a2.OK, a2.Errs, a3.OK, ac.Working)
+		rep.Vacuous("vacuous transport run: ok=%d errs=%d ok3=%d working=%d", a2.OK, a2.Errs, a3.OK, ac.Working)
 	}
 	rep.Finish()
 }
